@@ -53,7 +53,8 @@ class PHYResetController(Elaboratable):
         m = Module()
 
         # Counter that stores how many cycles we've spent in reset.
-        cycles_in_reset = Signal(range(0, self.reset_length_cycles))
+        # (The same counter times the stop period, which may well be longer than the reset.)
+        cycles_in_reset = Signal(range(0, max(self.reset_length_cycles, self.stop_length_cycles)))
 
         reset_state = 'RESETTING' if self.power_on_reset else 'IDLE'
         with m.FSM(init=reset_state, domain='sync') as fsm:
